@@ -116,4 +116,11 @@ theorem widen_table : ∀ m ∈ List.range 9, ∀ n ∈ List.range 9, ∀ c ∈ 
 
 
 
+
+set_option maxRecDepth 100000 in
+/-- the read-modify-write of `STORE_4` on a byte `B` with a nibble `y` -/
+theorem nibble_table : ∀ B ∈ List.range 256, ∀ y ∈ List.range 16,
+    (((B &&& 0x0f) ||| (y <<< 4)) % 256) >>> 4 = y ∧ (((B &&& 0x0f) ||| (y <<< 4)) % 256) &&& 0xf = B &&& 0xf ∧
+    (((B &&& 0xf0) ||| y) % 256) &&& 0xf = y ∧ (((B &&& 0xf0) ||| y) % 256) >>> 4 = B >>> 4 := by decide
+
 end Pixman.Lemmas.FormatCodec
